@@ -508,6 +508,15 @@ type Lemma struct {
 	File      string
 }
 
+// Rule: a structural obligation decided by enumeration over the SSA program (all writers of a field,
+// all callers of a function, all methods of a type that can reach a mutator).
+type Rule struct {
+	Pkg, Text string
+	Tags      []string
+	Line      int
+	File      string
+}
+
 type GuardDecl struct {
 	Pkg, Recv, Field string
 	Mode             string // guarded | atomic | immutable | confined
@@ -525,6 +534,7 @@ type SpecFile struct {
 	Lemmas  []*Lemma
 	Guards  []*GuardDecl
 	Monotone []*GuardDecl
+	Rules   []*Rule
 	Lines   int
 	Assumes []string
 }
@@ -536,7 +546,7 @@ var clauseKinds = map[string]bool{
 }
 
 var topKinds = map[string]bool{"func": true, "loop": true, "pure": true, "predicate": true, "lemma": true,
-	"axiom": true, "ghost": true, "guarded": true, "atomic": true, "immutable": true, "confined": true, "lockorder": true, "note": true, "monotone": true}
+	"axiom": true, "ghost": true, "guarded": true, "atomic": true, "immutable": true, "confined": true, "lockorder": true, "note": true, "monotone": true, "rule": true}
 
 func splitTags(head string) (kind string, tags []string, label string) {
 	kind = head
@@ -734,6 +744,9 @@ func ParseSpecFile(path, pkg string) (*SpecFile, error) {
 				return nil, errf(it.line, "%v", err)
 			}
 			sf.Lemmas = append(sf.Lemmas, &Lemma{Pkg: sf.Pkg, Name: strings.TrimSpace(it.rest[:i]), E: e, Text: it.rest[i+1:], Axiom: kind == "axiom", Tags: tags, Line: it.line, File: path})
+			curF, curL = nil, nil
+		case "rule":
+			sf.Rules = append(sf.Rules, &Rule{Pkg: sf.Pkg, Text: it.rest, Tags: tags, Line: it.line, File: path})
 			curF, curL = nil, nil
 		case "monotone":
 			// monotone[Cxx] (*T).f : every store to the field writes a value >= the old one
